@@ -67,7 +67,7 @@ def factories(ctx: Ctx):
     for b in bases:
         ci = ctx.repo.cls(MCM, b)
         fac = ctx.repo.lookup(ci, "factory")
-        body = SUMMARIZER.summarize(fac.node)
+        body = LY.factory_body(ctx, ci)
         where = f"{MCM}::{b}.factory"
         ctors = []
         for _g, leaf in strip_ifexp_paths(body):
@@ -121,12 +121,42 @@ def factories(ctx: Ctx):
 
 
 def strand(ctx: Ctx):
+    from ..dectab import DTop, Raises, Sym, SymInterp, eval_ctor
+    from ..typetab import dt_members, dt_value
+
     ci = ctx.repo.cls(SCM, "_BaseCubeCounts")
-    fac = ctx.repo.lookup(ci, "factory")
-    body = SUMMARIZER.summarize(fac.node)
-    paths = strip_ifexp_paths(body)
-    first = (u(paths[0][0][0][0]), u(paths[0][1])) if paths and paths[0][0] else None
-    ctx.ob("strand", f"{SCM}::_BaseCubeCounts.factory", first, "('ca_as_0th', '_CatCubeCounts(rows_dimension, counts[slice_idx])')", first == ("ca_as_0th", "_CatCubeCounts(rows_dimension, counts[slice_idx])"), "CA-as-0th: the strand of sub-variable k is row k of the 2-D tensor, treated as categorical")
+    body = LY.factory_body(ctx, ci)
+    where = f"{SCM}::_BaseCubeCounts.factory"
+    bad, n = [], 0
+    try:
+        for ca0 in (True, False):
+            for mem in dt_members(ctx.repo):
+                def atoms(e, ca0=ca0, mem=mem):
+                    t = u(e)
+                    if t == "ca_as_0th":
+                        return ca0
+                    if t == "rows_dimension.dimension_type":
+                        return mem
+                    if isinstance(e, ast.Attribute) and isinstance(e.value, ast.Name) and e.value.id == "DT":
+                        return dt_value(ctx.repo, e.attr)
+                    if isinstance(e, ast.Name) and ctx.repo.resolve_class(ci.module, e.id) is not None:
+                        return ctx.repo.resolve_class(ci.module, e.id).name
+                    raise KeyError
+
+                callee, args, _kw = eval_ctor(SymInterp(atoms), body)
+                got = (callee, [repr(a) for a in args])
+                if ca0:
+                    want = ("_CatCubeCounts", ["rows_dimension", "counts[slice_idx]"])
+                else:
+                    want = ({"NUM_ARRAY": "_NumArrCubeCounts", "MR_SUBVAR": "_MrCubeCounts"}.get(mem, "_CatCubeCounts"), ["rows_dimension", "counts"])
+                n += 1
+                if got != want:
+                    bad.append(f"ca_as_0th={ca0} type={mem}: {got} (specified {want})")
+        ctx.count("strand factory table rows", n)
+        ctx.ob("strand", where, bad[:4] or f"{n} (ca_as_0th, dimension type) cases", "CA-as-0th: row k of the 2-D tensor as a categorical strand; else numeric array / MR / categorical by the rows dimension, whole tensor", not bad,
+               "CA-as-0th: the strand of sub-variable k is row k of the 2-D tensor, treated as categorical")
+    except (DTop, Raises) as exc:
+        ctx.undecided("strand", where, f"DECTAB: {exc}", "decision table over (ca_as_0th, dimension type)")
     st = ctx.repo.cls("cubepart.py", "_Strand")
     e = expand(ctx.repo, st, "_rows_dimension", stop=lambda m: True)
     ctx.check_expr("strand", "cubepart.py::_Strand._rows_dimension", e, "self._cube.dimensions[-1].apply_transforms(self._row_transforms_dict)")
@@ -221,11 +251,21 @@ def cubeset(ctx: Ctx):
             "Cube(cube_response, cube_idx=idx if self._is_multi_cube else None, transforms=self._transforms_dicts[idx], population=self._population, mask_size=self._min_base)",
             "cube idx, its own transforms, the population and the minimum base are passed by matching names",
         )
-    ifexps = [u(n) for n in ast.walk(m.node) if isinstance(n, ast.IfExp)]
-    ok_inflate = "cube.inflate() if self._is_numeric_measure else cube" in ifexps
-    ctx.ob("cubeset.guards", "cube.py::CubeSet._cubes [inflate]", ok_inflate, True, ok_inflate, "cubes are inflated only in the numeric-measure case")
-    ok_aug = "cube.augment_response(self._cube_responses[0]) if self._is_multi_cube and cube.is_single_filter_col_cube and (idx > 0) else cube" in ifexps
-    ctx.ob("cubeset.guards", "cube.py::CubeSet._cubes [augment]", ok_aug, True, ok_aug, "augmentation only for a single-filter column cube after the first, in a multi-cube set")
+    from ..stmts import match_atoms, positive_guard_atoms
+
+    for method, wants, why in (
+        ("inflate", ["self._is_numeric_measure"], "cubes are inflated only in the numeric-measure case"),
+        ("augment_response", ["self._is_multi_cube", "cube.is_single_filter_col_cube", "idx > 0"], "augmentation only for a single-filter column cube after the first, in a multi-cube set"),
+    ):
+        calls = [n for n in ast.walk(m.node) if isinstance(n, ast.Call) and isinstance(n.func, ast.Attribute) and n.func.attr == method]
+        where = f"cube.py::CubeSet._cubes [{method}]"
+        if not calls:
+            ctx.undecided("cubeset.guards", where, f"no call of .{method}() found", " and ".join(wants))
+            continue
+        for c in calls:
+            held = positive_guard_atoms(m.node, c)
+            for w, (ok, detail) in match_atoms(held, wants).items():
+                ctx.ob("cubeset.guards", where + f" [{w}]", [u(h)[:50] for h in held], w, ok, detail or why)
     e = expand(ctx.repo, cs, "_is_numeric_measure", stop=lambda m: True)
     ctx.check_expr("cubeset.guards", "cube.py::CubeSet._is_numeric_measure", e, "False if not self._is_multi_cube else Cube(self._cube_responses[0]).ndim == 0")
     e = expand(ctx.repo, cs, "_is_multi_cube", stop=lambda m: True)
